@@ -82,7 +82,7 @@ class State(object):
                     else:
                         extra.append(f)
             for p in self.lazy:
-                extra.extend(p())
+                extra.extend(p(self) if getattr(p, "wants_state", False) else p())
         return out + extra
 
     def all_kterms(self):
@@ -93,6 +93,14 @@ class State(object):
             for k in getattr(f, "requests", {}).values():
                 seen[k.sexpr()] = k
         return list(seen.values())
+
+    def note_k(self, k):
+        """register a position term so that position-quantified hypotheses get instantiated at it"""
+        import z3 as _z3
+        k = _z3.simplify(k)
+        key = k.sexpr()
+        if all(t.sexpr() != key for t in self.kterms):
+            self.kterms.append(k)
 
     def add_k(self, prefix="k"):
         import z3 as _z3
